@@ -314,6 +314,9 @@ def run_case(case, ctx):
         g = c10_ds.make(rnd, kind=case["kind"], rules=False)
         ds, axes, kind = g["ds"], g["axes"], g["kind"]
         masters = [dict(m) for m in g["masters"]]
+        ctx.note("gen:masters-with-partial-location", sum(1 for m in masters if m.get("partial_location")))
+        if g["opts"].get("sparse_kern"):
+            ctx.note("gen:kerning-exceptions-in-some-masters-only")
         expected = ()
     else:
         r = _load_corpus_ds(case, ctx)
@@ -357,7 +360,10 @@ def run_case(case, ctx):
         if case["src"] == "gen":
             design = m["design"]
         else:
-            design = m["src"].getFullDesignLocation(ds)
+            # the source's own design location; axes it omits sit at the *mapped* axis default (designspace
+            # format 5), filled in here with the harness' own map arithmetic
+            given = dict(m["src"].designLocation or m["src"].location or {})
+            design = {a["name"]: given[a["name"]] if a["name"] in given else float(design_triple(a)[1]) for a in axes}
             m["is_default"] = (lds is not None and lds["base_idx"] == mi)
             m["sparse"] = []
         m["user_exact"] = {a["tag"]: inverse_map(a, F(design[a["name"]])) for a in axes}
